@@ -87,9 +87,9 @@ def apply_edit(m):
     return True
 
 
-def run_mutants(names):
+def run_mutants(names, listfile="mutants.json"):
     sync_verif()
-    muts = json.load(open(SRC + "/tools/mutants.json"))
+    muts = json.load(open(SRC + "/tools/" + listfile))
     if names:
         muts = [m for m in muts if m["name"] in names]
     results = []
@@ -112,7 +112,7 @@ def run_mutants(names):
         results.append({"name": m["name"], "breaks": m.get("breaks"), "survives_repo_tests": good, "tests": tests, "checks": r, "caught_by": caught})
         sys.stdout.flush()
     revert()
-    json.dump(results, open(LAB + "/results.json", "w"), indent=1)
+    json.dump(results, open(LAB + "/results-" + listfile, "w"), indent=1)
     return results
 
 
@@ -138,6 +138,8 @@ if __name__ == "__main__":
         setup()
     elif cmd == "run":
         run_mutants(sys.argv[2:])
+    elif cmd == "benign":
+        run_mutants(sys.argv[2:], "benign.json")
     elif cmd == "patch":
         run_patch(os.path.abspath(sys.argv[2]), sys.argv[3:])
     elif cmd == "clean":
